@@ -13,8 +13,11 @@ LEVEL = "exploration"
 RULE = (
     "Hypothesis draws (network, random tree, sliced labels inner and output "
     "(product <=24), per-tensor decimal scale in [-100,100], dtype, API in "
-    "{tree.contract, array_contract, einsum, single-tensor expression}, "
-    "prefer_einsum/implementation). Arrays = integer-valued base bounded away "
+    "{tree.contract, tree.gen_output_chunks re-assembled by key, "
+    "array_contract, einsum, single-tensor expression}, "
+    "prefer_einsum/implementation, check_zero; with check_zero=True up to 3 "
+    "hyperplanes of the inputs along sliced labels are zeroed: identically "
+    "zero slices / chunks, non-zero total). Arrays = integer-valued base bounded away "
     "from zero x 10**scale. Oracle in the log domain: exact dense reference "
     "of the UNSCALED bases (never overflows) and the sum of scales; "
     "|mantissa x 10**(exponent - sum) - reference| <= 1e-9 x (the same "
@@ -33,7 +36,7 @@ ASSUMPTIONS = [
 
 @st.composite
 def cases(draw):
-    api = draw(st.sampled_from(["tree", "tree", "array_contract", "einsum", "single"]))
+    api = draw(st.sampled_from(["tree", "tree", "chunks", "array_contract", "einsum", "single"]))
     if api == "single":
         net = draw(gen.networks(min_n=1, max_n=1, alphabets=("ascii",), volume_limit=2**12))
     else:
@@ -45,8 +48,18 @@ def cases(draw):
         )
     n = len(net["inputs"])
     removed = []
-    if api == "tree" and draw(st.integers(0, 3)) != 0:
+    if api in ("tree", "chunks") and draw(st.integers(0, 3)) != 0:
         removed = [r for r in draw(gen.removed_lists(net, max_k=3, max_prod=24, allow_project=False))]
+    # check_zero=True is the documented way to contract when a slice (or an
+    # intermediate) is identically zero: with it, some hyperplanes of the
+    # inputs along sliced labels are zeroed so that whole slices vanish while
+    # the result does not
+    check_zero = draw(st.booleans())
+    zero_planes = []
+    if check_zero and removed:
+        zero_planes = draw(
+            st.lists(st.tuples(st.integers(0, 5), st.integers(0, 8), st.integers(0, 5)), min_size=0, max_size=3)
+        )
     mode = draw(st.sampled_from(["small", "mixed", "huge", "tiny", "huge", "tiny"]))
     rng_s = {
         "small": st.integers(-3, 3),
@@ -65,6 +78,8 @@ def cases(draw):
         "prefer_einsum": draw(st.booleans()),
         "impl": draw(st.sampled_from([None, "cotengra", "autoray"])),
         "aseed": draw(st.integers(0, 999)),
+        "check_zero": check_zero,
+        "zero_planes": [list(z) for z in zero_planes],
     }
 
 
@@ -91,11 +106,26 @@ def run_case(spec, sub=None):
         bases = [np.abs(b.real) + (1j * np.abs(b.imag) if spec["dtype"] == "c" else 0) for b in bases]
         if spec["dtype"] != "c":
             bases = [b.real.astype(np.float64) for b in bases]
+    check_zero = bool(spec.get("check_zero"))
+    nzero = 0
+    if check_zero and removed:
+        for j, k, v in spec.get("zero_planes", []):
+            ix = removed[j % len(removed)][0]
+            holders = [i for i, t in enumerate(inputs) if ix in t]
+            i = holders[k % len(holders)]
+            sel = tuple((v % sizes[ix]) if lab == ix else slice(None) for lab in inputs[i])
+            bases[i] = bases[i].copy()
+            bases[i][sel] = 0
+            nzero += 1
     absb = [np.abs(b) for b in bases]
     R = ref.dense_ref(inputs, output, sizes, bases)
     M = float(np.max(ref.dense_ref(inputs, output, sizes, absb)))
     S = sum(spec["scales"])
     cls = [f"api={spec['api']}", f"dtype={spec['dtype']}"]
+    if check_zero:
+        cls.append("check_zero")
+    if nzero:
+        cls.append("zero_slices")
     if not np.any(R != 0):
         return Outcome([], False, cls + ["zero_result_skipped"])
     arrays = [b * 10.0 ** s for b, s in zip(bases, spec["scales"])]
@@ -116,7 +146,46 @@ def run_case(spec, sub=None):
         k2 = dict(kw, prefer_einsum=spec["prefer_einsum"])
         if spec["impl"]:
             k2["implementation"] = spec["impl"]
+        if check_zero:
+            k2["check_zero"] = True
         ok, res = guarded(tree.contract, arrays, **k2)
+    elif api == "chunks":
+        # the lazily generated output chunks, each with its own exponent,
+        # are re-assembled here by their keys
+        ok, tree = guarded(
+            ctg.ContractionTree.from_path, inputs, output, sizes,
+            path=[tuple(p) for p in spec["path"]],
+        )
+        if not ok:
+            return Outcome([f"from_path raised {tree}"], False, ["error"])
+        for ix, p in removed:
+            tree.remove_ind_(ix, project=p)
+        k2 = dict(kw, prefer_einsum=spec["prefer_einsum"])
+        if check_zero:
+            k2["check_zero"] = True
+
+        def assemble():
+            full_m = np.zeros(out_shape, dtype=np.result_type(*arrays))
+            es = []
+            parts = []
+            for chunk, key in tree.gen_output_chunks(arrays, with_key=True, **k2):
+                if not (isinstance(chunk, tuple) and len(chunk) == 2):
+                    raise AssertionError(
+                        f"gen_output_chunks(strip_exponent=True) yielded a {type(chunk).__name__} "
+                        f"of length {len(chunk) if hasattr(chunk, '__len__') else '?'} instead of (mantissa, exponent)"
+                    )
+                parts.append((chunk[0], float(chunk[1]), key))
+            finite = [e for _, e, _ in parts if math.isfinite(e)]
+            emax = max(finite) if finite else 0.0
+            for m_, e_, key in parts:
+                sel = tuple(key[ix] if ix in key else slice(None) for ix in output)
+                if e_ == float("-inf"):
+                    full_m[sel] = 0
+                else:
+                    full_m[sel] = np.asarray(m_) * 10.0 ** (e_ - emax)
+            return full_m, emax
+
+        ok, res = guarded(assemble)
     elif api == "array_contract":
         k2 = dict(kw, prefer_einsum=spec["prefer_einsum"], cache_expression=False)
         ok, res = guarded(
